@@ -173,14 +173,17 @@ CHECKS["C01"] = {
     "title": "queue: exactly one terminal outcome per recipient",
     "go": GO126,
     "units": [
-        {"name": "queue", "pkg": "internal/target/queue", "run": "^TestVerifC01",
+        {"name": "queue", "pkg": "internal/target/queue", "run": "^TestVerifC01$",
          "overlay": dict(QUEUE_COMMON, **{"verif_c01_test.go": "harness/C01/queue_test.go"}), "overlay_abs": VERIFX},
+        {"name": "real", "pkg": "internal/target/queue", "run": "^TestVerifC01Real$",
+         "overlay": dict(QUEUE_COMMON, **{"verif_c01_test.go": "harness/C01/queue_test.go", "verif_c01real_test.go": "harness/C01/real_test.go"}), "overlay_abs": VERIFX},
     ],
     "quick": {"n": 4000, "shards": 16},
     "thorough": {"n": 160000, "shards": 16},
     "level_text": "randomised search (rapid) over recipient sets, downstream kinds and per-attempt fault plans, executed against the real queue on a virtual clock "
                   "(testing/synctest, production retry timing); oracle = reference model of the documented attribution rules computed from the plan alone.",
-    "level_note": "built with go1.26.8 for testing/synctest; downstream targets are scripted (atomic and per-recipient); duplicate recipients are not generated",
+    "level_note": "built with go1.26.8 for testing/synctest; unit `queue`: scripted downstream targets (atomic and per-recipient) on a virtual clock; unit `real`: maddy's own target.smtp / target.lmtp "
+                  "client against a scripted loopback server in real time (retry delay 3 ms), oracle over what the server saw; duplicate recipients are not generated",
     "technique": "property-based testing (rapid) with fault-plan generation and a reference model, run on a virtual clock",
     "assumptions": ["toolchain go1.26.8 (newer than the repository's 1.23.5) is used to get testing/synctest"],
 }
